@@ -834,6 +834,62 @@ pub fn run() {
             note(&mut bad, x.0, x.1, x.2);
         }
     }
+    // ---- long sessions: hundreds of submitted lines in one session (valid, invalid, recalled with Up),
+    // every key compared as always; the 300th line must act like the 3rd ----
+    let mut long_keys = 0u64;
+    {
+        let sessions: Vec<(usize, u16)> = vec![(if quick { 320 } else { 1200 }, 76), (270, 120)];
+        let rr = mc::par_map(&sessions, |(nlines, width)| {
+            let mut out = vec![];
+            let mut n = 0u64;
+            let r = mc::catch(|| -> Result<u64, (String, String, String)> {
+                let mut s = Session::new();
+                let mut pressed = vec![];
+                let mut cnt = 0u64;
+                for i in 0..*nlines {
+                    let line = match i % 7 {
+                        0 => format!("FC = {}", i % 256),
+                        1 => format!("set FD = 0x{:x}", i % 256),
+                        2 => "bogus line".to_string(),
+                        3 => format!("next {}", 1 + i % 3),
+                        4 => "set J1".to_string(),
+                        5 => "unset J1".to_string(),
+                        _ => format!("FF = 0b{:b}", i % 256),
+                    };
+                    let mut keys = typed(&line);
+                    if i % 11 == 10 {
+                        // recall the previous line and submit it again; walk further up and come back
+                        keys = vec![K::E(Key::Up), K::E(Key::Enter), K::E(Key::Enter), K::E(Key::Up), K::E(Key::Up), K::E(Key::Up), K::E(Key::Down), K::E(Key::Down), K::E(Key::Down), K::E(Key::Down)];
+                    }
+                    for k in keys {
+                        pressed.push(k);
+                        cnt += 1;
+                        if let Err((key, what)) = s.press(k) {
+                            let tail: Vec<K> = pressed[pressed.len().saturating_sub(40)..].to_vec();
+                            return Err((format!("long-session/{}", key), format!("{} # the last 40 of {} keys of a long session", keys_line(&tail, *width, 28), pressed.len()), format!("after {} submitted lines: {}", i, what)));
+                        }
+                    }
+                    if i % 50 == 49 {
+                        s.render(*width, 28);
+                    }
+                }
+                Ok(cnt)
+            });
+            match r {
+                Ok(Ok(c)) => n += c,
+                Ok(Err(x)) => out.push(x),
+                Err(p) => out.push((panic_key(&p), format!("seq= size={}x28 # long session of {} lines", width, nlines), format!("panic at {}: {}", p.site(), p.msg))),
+            }
+            (n, out)
+        });
+        for (n, o) in rr {
+            long_keys += n;
+            for (k, l, w) in o {
+                note(&mut bad, k, l, w);
+            }
+        }
+    }
+    mc::watch::idle();
     // ---- control keys after each of 20 machine states ----
     let mut ctl_runs = 0u64;
     {
@@ -890,6 +946,7 @@ pub fn run() {
     ctx.set("traces_validated_against_impl", transitions + cmd_runs + ctl_runs);
     ctx.set("evaluations", transitions + cmd_runs + ctl_runs + renders + startups);
     ctx.set("startup_sessions", startups);
+    ctx.set("long_session_keys", long_keys);
     ctx.set("distinct_nontrivial", states + cmd_accepted);
     ctx.set("rule", "editor: BFS by replay over a 22-key alphabet (characters incl. multi-byte, Enter, Tab, BackTab, arrows, Home/End, Backspace/Delete), complete key-sequence tree to the depth (no deduplication; distinct visible states are only counted); every key goes through the real Tui::handle_event and is compared with REF-EDIT / REF-CMD and a twin Machine driven by library calls; every transition renders the real Interface into a Buffer; rendering: every chosen editor state x all widths 76..250 and heights 28..100, 8 session states x all sizes 1x1..250x100, long inputs around the widget width; commands: the sentence family and all short strings typed and submitted; control keys: all ordered pairs after 20 machine states");
     ctx.set("exhaustive", true);
